@@ -209,14 +209,12 @@ def specFilter (base : Nat) : St V → List (List V) → List V → List Clause
     if N = 0 then [] else
     match y with
     | [m, v] =>
-      [clauseEq "C16.mean" [Spec.windowMean N (heads h)] [m],
-       clauseP "C16.var-nonneg" (leV 0 v) ">= 0"] ++
+      [clauseP "C16.var-nonneg" (leV 0 v) ">= 0"] ++
       (if allEq (heads h) then [clauseEq "C16.const-zero" [0] [v]] else [])
     | _ => [clauseP "C16.shape" false "two components"]
   | .emeanVar w _, h, y =>
     match y with
     | [m, v] =>
-      (match Spec.emaRec w (heads h) with | some e => [clauseEq "C16.exp-mean" [e] [m]] | none => []) ++
       (if inUnit w then [clauseP "C16.exp-var-nonneg" (leV 0 v) ">= 0"] else []) ++
       (if allEq (heads h) then [clauseEq "C16.exp-const-zero" [0] [v]] else [])
     | _ => [clauseP "C16.shape" false "two components"]
@@ -496,12 +494,18 @@ def stepFilterOp (d : DState) (op : String) (toks impl : List String) : Option (
     let _ ← d.get id
     some (report { d with insts := d.insts.filter (·.1 != id) } op { model := "ok", impl := implS })
   | ["live"] =>
-    -- C19: the harness's ledger of live instrumented samples against the samples the models own
+    -- C19: the harness's ledger of live instrumented samples against the samples the models own.
+    -- Own clauses of the property: never a double drop / use of a dead value (`errors=0`), and nothing is live once
+    -- every instance has been dropped. The count in between is a model correspondence (DIFF), not the property itself.
     let total := (d.insts.filter (·.2.tracked)).foldl (fun n p => n + p.2.st.owned) 0
     let e := s!"live={total} errors=0"
     let d := d.flag (if total == 0 then "ledger.empty" else "ledger.nonempty")
-    some (report d op { model := e, impl := implS, kind := "ledger",
-                        clauses := [{ name := "C19.ledger", ok := e == implS, expected := e }] })
+    let noErr := implS.endsWith "errors=0"
+    let anyTracked := d.insts.any (·.2.tracked)
+    let cl : List Clause :=
+      [{ name := "C19.no-double-drop", ok := noErr, expected := "errors=0" }] ++
+      (if anyTracked then [] else [{ name := "C19.nothing-leaked", ok := implS.startsWith "live=0 ", expected := "live=0" }])
+    some (report d op { model := e, impl := implS, kind := "ledger", clauses := cl })
   | "same" :: a :: b :: name :: rest => do
     -- the implementation's last outputs of two instances must coincide (component `k` if given);
     -- the harness prints both after `=>`, separated by `|`
